@@ -239,6 +239,16 @@ pub fn lw_pool(quick: bool) -> Vec<LwSpec> {
             }
         }
     }
+    // F15: a receiving application that steps only every 2.4 s (120 rounds): a data frame and the sync frame its sender emits 2 s later are
+    // read by the same step; the packets that follow reuse the window slots (window 4) with single losses
+    {
+        let ops: Vec<Op> = (0..10usize).map(|i| send(i * 125, 0, (i % 2) as u8, [Unreliable, Reliable, Persistent][i % 3], 40 + i)).collect();
+        let s = Arc::new(ScriptInfo::new(ops));
+        let mut env = env_live(0, 0);
+        env.fates = &[Fate::Deliver, Fate::Drop]; env.deltas = &[20]; env.dev_start = 125 * 3; env.dev_rounds = 125 * 4 + 5; env.max_rounds = 125 * 12 + T_LIVE_ROUNDS;
+        let cfg = LwCfg { step_every: [1, 120], ..w4.clone() };
+        v.push(sp("slow-receiving-application.2400ms", &cfg, &s, env, if quick { 1 } else { 2 }));
+    }
     // F11: exactly one packet window (4) of small packets, one per round, every script over 2 channels x {U, R, P}, with up to three
     // frames lost: the window is exactly full while several packets are missing, and reopens piecewise
     let four = scripts_upto(4, &[0, 1], &[Unreliable, Reliable, Persistent], &[40], &[1]);
